@@ -51,7 +51,13 @@ macro_rules! walkers {
                 let dbg = pat.dbg;
                 move |m: &mut Matching<F>| {
                     if let Some(mask) = mask {
-                        m.func(move |a: &u8, _| (mask >> *a) & 1 == 1);
+                        // bit 16: user code that panics - the matcher itself, when shown the argument 7
+                        m.func(move |a: &u8, _| {
+                            if mask & (1 << 16) != 0 && *a == 7 {
+                                panic!("user:matcher");
+                            }
+                            (mask >> *a) & 1 == 1
+                        });
                     }
                     if let Some(d) = dbg {
                         m.pat_debug(NAMES[d as usize], "case.rs", d);
